@@ -64,9 +64,10 @@ def _block(btype, body, e):
     return struct.pack(e + "II", btype, n) + body + b"\x00" * pad + struct.pack(e + "I", n)
 
 
-def pcapng(items, le=True, tsresol=None, tsoffset=None, snaplen=262144, junk_blocks=False, offset_first=False, extra_opts=False, epb_opts=False, pre_idb=()):
+def pcapng(items, le=True, tsresol=None, tsoffset=None, snaplen=262144, junk_blocks=False, offset_first=False, extra_opts=False, epb_opts=False, pre_idb=(), obsolete_pb=0.0):
     """items: list of ('pkt', ts_us:int, frame) | ('dsb', bytes) | ('raw', btype, body)
     offset_first: write if_tsoffset before if_tsresol in the IDB (pcapng prescribes no option order);
+    obsolete_pb: fraction of packets written as (obsolete) Packet Blocks, type 2, instead of Enhanced Packet Blocks;
     extra_opts: unrelated options in the SHB (hardware, os, userappl) and IDB (if_name, if_description, if_os, if_fcslen, a custom one);
     epb_opts: options on the packet blocks (epb_flags, a comment)"""
     e = "<" if le else ">"
@@ -106,6 +107,9 @@ def pcapng(items, le=True, tsresol=None, tsoffset=None, snaplen=262144, junk_blo
             ticks, rem = divmod(ts_us * den, 10 ** 6)
             assert rem == 0, "timestamp not representable at this resolution"
             assert ticks >= 0, "timestamp before the interface offset"
+            if obsolete_pb and (n * 2654435761 % 1000) / 1000.0 < obsolete_pb:
+                out.append(_block(2, struct.pack(e + "HHIIII", 0, 0, ticks >> 32, ticks & 0xFFFFFFFF, len(frame), len(frame)) + frame, e))
+                continue
             body = struct.pack(e + "IIIII", 0, ticks >> 32, ticks & 0xFFFFFFFF, len(frame), len(frame)) + frame
             if epb_opts:
                 body += b"\x00" * ((-len(body)) % 4)
